@@ -165,8 +165,16 @@ class IntegratorKrylov(Integrator):
     def set_state(self, t, state0):
         self._t_0 = t
         self._is_set = True
+        # The Lanczos iteration needs a normalised first vector; the evolution
+        # is linear, so the norm is put back on the coefficients.
+        norm = _data.norm.l2(state0)
+        if norm > 0:
+            state0 = _data.mul(state0, 1 / norm)
+        else:
+            norm = 1.
         krylov_tridiag, krylov_basis = self._lanczos_algorithm(state0)
-        self._krylov_state = self._compute_krylov_set(krylov_tridiag, krylov_basis)
+        eigenvalues, U, e0 = self._compute_krylov_set(krylov_tridiag, krylov_basis)
+        self._krylov_state = (eigenvalues, U, _data.mul(e0, norm))
 
         if (
             krylov_tridiag.shape[0] <= self.options['krylov_dim']
@@ -181,7 +189,7 @@ class IntegratorKrylov(Integrator):
             or self.options["always_compute_step"]
         ):
             self._max_step = self._compute_max_step(
-                krylov_tridiag, krylov_basis, self._krylov_state,
+                krylov_tridiag, krylov_basis, (eigenvalues, U, e0),
             )
 
     def get_state(self, copy=True):
